@@ -1,0 +1,6 @@
+//go:build !verif
+// +build !verif
+
+package canary
+
+func verifSocketGap(s Socket) {}
